@@ -15,3 +15,7 @@ package client
 // holds at most one PA-ENC-TIMESTAMP (setPAData is the only writer and replaces it). That invariant spans
 // calls and is not expressed; the two index obligations are assumed.
 //@ assume_obligation client.setPAData#bounds:ASReq.PAData[i] = ASReq.PAData[len(ASReq.PAData)-1] :: at most one PA-ENC-TIMESTAMP in the request (cross-call invariant, not network input)
+
+//@ func (*client.Settings).Logger(s) (r)
+//@   pure
+//@   ensures r == s.logger
